@@ -206,6 +206,35 @@ def evaluate(cases, env):
     """run implementation and model on the cases; returns per-case records"""
     lines = [json.dumps(c, ensure_ascii=False) for c in cases]
     rc, impl, err = run_impl(lines, env)
+    if len(impl) != len(cases) and rc != 0:
+        # the executor died (abort / signal: an allocation failure, a non-unwinding panic, a crash in unsafe code — nothing
+        # `catch_unwind` can turn into a result).  That is an outcome of the IMPLEMENTATION on some case: isolate the case
+        # (single-threaded re-runs of the cases without a result; the first one without a result kills the process), give
+        # it a synthetic result with an oracle failure, and go on with the rest.
+        got = {json.dumps(r.get("id")): r for r in impl}
+        for _round in range(25):
+            missing = [i for i, c in enumerate(cases) if json.dumps(c.get("id")) not in got]
+            if not missing:
+                break
+            rc2, part, err2 = run_impl([lines[i] for i in missing], env, threads=1)
+            for r in part:
+                got[json.dumps(r.get("id"))] = r
+            still = [i for i in missing if json.dumps(cases[i].get("id")) not in got]
+            if not still or rc2 == 0:
+                break
+            k = still[0]
+            tail = (err2 or "")[-600:]
+            got[json.dumps(cases[k].get("id"))] = {
+                "id": cases[k].get("id"), "out": {"err": "ProcessAbort"},
+                "oracle": [{"sig": "process-abort", "rc": rc2, "stderr": tail}], "feat": {"process_abort": 1}}
+        impl = [got.get(json.dumps(c.get("id"))) for c in cases]
+        if any(r is None for r in impl):
+            # the executor keeps dying: the cases isolated so far are reported, the rest of this batch is not evaluated
+            keep = [i for i, r in enumerate(impl) if r is not None]
+            sys.stderr.write(f"executor aborted on more than 25 cases; {len(cases) - len(keep)} case(s) of this batch not evaluated\n")
+            cases = [cases[i] for i in keep]
+            lines = [lines[i] for i in keep]
+            impl = [impl[i] for i in keep]
     if len(impl) != len(cases):
         raise RuntimeError(f"harness exec failed rc={rc}: {err[-2000:]}")
     # the model sees the same case, stamped with the wall-clock reading the executor used
